@@ -24,7 +24,7 @@ CONSTANTS Ids,        \* identifiers usable as explicit entity ids (integers; th
           Types, Bases,           \* component class hierarchy: Bases \in [Types -> SUBSET Types]
           Comps, TypeOf, Decl,    \* component instances, exact type, declared callbacks \subseteq {"on_add","on_remove","probe"}
           Procs, PTypes, PBases, PTypeOf, PDefault, PDecl,   \* processors: instances, class hierarchy, class default priority
-          Prios,      \* explicit priorities offered to AddProcessor (integers); "none" is always offered
+          Prios,      \* explicit priorities offered to AddProcessor (integers); NoPrio ("not given") is always offered
           Dts,        \* dt values offered to Process
           MaxQ,       \* bound on postponed callbacks (guard)
           Acts,       \* enabled action families: subset of {"create","create2","add","remove","delete","process","clear","toggle","probe","proc","fault"}
@@ -40,6 +40,7 @@ VARIABLES rows, index, dead, nextAuto,
 vars == <<rows, index, dead, nextAuto, enabled, queue, reg, selfReg, probeKnown, procs, pprio, pworld, log, ret, bad>>
 
 NoEnt == 0 - 1
+NoPrio == 999      \* add_processor(p) without an explicit priority
 EmptyF == <<>>
 
 ----------------------------------------------------------------------------
@@ -142,7 +143,10 @@ Init == /\ rows = EmptyF /\ index = EmptyF /\ dead = {} /\ nextAuto = 1
         /\ log = <<>> /\ ret = <<"ok", 0, "-">> /\ bad = "none"
 
 QRoom(n) == enabled \/ Len(queue) + n <= MaxQ
-Same == UNCHANGED <<nextAuto, enabled, selfReg, probeKnown, procs, pprio, pworld, bad>>
+ProbeTargets(rg) == {x \in rg : "probe" \in (IF x \in Comps THEN Decl[x] ELSE PDecl[x])}
+\* an event name is known to the dispatcher once a handler mapping it was registered (until clear)
+PK == probeKnown' = (probeKnown \/ ProbeTargets(reg') # {})
+Same == PK /\ UNCHANGED <<nextAuto, enabled, selfReg, procs, pprio, pworld, bad>>
 
 \* --- create_entity(*cs, entity_id=id) ; id = NoEnt means automatic ------------------------------
 RECURSIVE PickAuto(_)
@@ -167,7 +171,7 @@ CreateEntity(id, cs) ==
        /\ Commit(AnnounceAll(CreateTables(W0, e, cs), e, cs))
        /\ ret' = <<"id", e, "-">>
        /\ bad' = IF bad = "none" /\ id = NoEnt /\ e \in DOMAIN rows THEN "auto_id_in_use" ELSE bad
-    /\ UNCHANGED <<enabled, selfReg, probeKnown, procs, pprio, pworld>>
+    /\ PK /\ UNCHANGED <<enabled, selfReg, procs, pprio, pworld>>
 
 \* --- add_component(e, c) -------------------------------------------------------------------------
 AddComponent(e, c) ==
@@ -196,7 +200,7 @@ RemoveComponent(e, T) ==
 DeleteDeferred(e) ==
     /\ "delete" \in Acts /\ e \in DOMAIN rows
     /\ Commit([W0 EXCEPT !.dead = @ \cup {e}]) /\ ret' = <<"ok", 0, "-">>
-    /\ UNCHANGED <<nextAuto, enabled, selfReg, probeKnown, procs, pprio, pworld, bad>>
+    /\ PK /\ UNCHANGED <<nextAuto, enabled, selfReg, procs, pprio, pworld, bad>>
 
 DeleteImmediate(e) ==
     /\ "delete" \in Acts /\ QRoom(3)
@@ -220,14 +224,14 @@ AddProcessor(p, pr) ==
     /\ \A i \in 1..Len(procs) : procs[i] # p         \* an instance is added at most once at a time
     /\ LET old == OfPType(procs, PTypeOf[p])
            r1 == IF old = {} THEN <<W0, procs>> ELSE RemoveProcInst(W0, procs, procs[CHOOSE i \in old : TRUE])
-           newpr == IF pr = "none" THEN pprio[p] ELSE pr
+           newpr == IF pr = NoPrio THEN pprio[p] ELSE pr
            pp == [pprio EXCEPT ![p] = newpr]
            s2 == InsertAt(r1[2], RightIdx(r1[2], pp, newpr), p)
            w2 == IF PDecl[p] # {} THEN Notify([r1[1] EXCEPT !.reg = @ \cup {p}], "on_add", p, NoEnt) ELSE r1[1]
        IN /\ procs' = s2 /\ pprio' = pp /\ Commit(w2)
           /\ pworld' = [pworld EXCEPT ![p] = TRUE]
     /\ ret' = <<"ok", 0, "-">>
-    /\ UNCHANGED <<nextAuto, enabled, selfReg, probeKnown, bad>>
+    /\ PK /\ UNCHANGED <<nextAuto, enabled, selfReg, bad>>
 
 RemoveProcessor(T) ==
     /\ "proc" \in Acts /\ QRoom(1)
@@ -238,7 +242,7 @@ RemoveProcessor(T) ==
               LET p == procs[CHOOSE i \in OfPType(procs, t) : TRUE]
                   r == RemoveProcInst(W0, procs, p) IN
               /\ Commit(r[1]) /\ procs' = r[2] /\ ret' = <<"proc", 0, p>>
-    /\ UNCHANGED <<nextAuto, enabled, selfReg, probeKnown, pprio, pworld, bad>>
+    /\ PK /\ UNCHANGED <<nextAuto, enabled, selfReg, pprio, pworld, bad>>
 
 \* --- process(dt) -------------------------------------------------------------------------------------
 RECURSIVE RunProcs(_, _, _, _)
@@ -258,7 +262,7 @@ Process(dt) ==
             ELSE \* as coded: self._entities[entity] raises KeyError; the pending set is never emptied
                  /\ \E done \in SUBSET DeadRows : Commit(ApplyDeferred(W0, done))
                  /\ ret' = <<"KeyError", 0, "-">>
-    /\ UNCHANGED <<nextAuto, enabled, selfReg, probeKnown, procs, pprio, pworld, bad>>
+    /\ PK /\ UNCHANGED <<nextAuto, enabled, selfReg, procs, pprio, pworld, bad>>
 
 \* a processor raises in the middle of the frame: deletions were applied, later processors do not run
 ProcessProcFault(dt, p) ==
@@ -266,7 +270,7 @@ ProcessProcFault(dt, p) ==
     /\ \E i \in 1..Len(procs) : procs[i] = p
     /\ Commit(RunProcs(ApplyDeferred(W0, dead), procs, dt, p))
     /\ ret' = <<"raised", 0, "-">>
-    /\ UNCHANGED <<nextAuto, enabled, selfReg, probeKnown, procs, pprio, pworld, bad>>
+    /\ PK /\ UNCHANGED <<nextAuto, enabled, selfReg, procs, pprio, pworld, bad>>
 
 \* on_remove of component c raises while the deferred deletion of its entity is being applied
 \* (only when enabled: a postponed callback cannot raise here).  Which other dead entities / components
@@ -283,7 +287,7 @@ ProcessRemoveFault(dt, c) ==
                                    !.log = Append(@, <<"on_remove", c, e>>)] IN
               Commit(w2)
     /\ ret' = <<"raised", 0, "-">>
-    /\ UNCHANGED <<nextAuto, enabled, selfReg, probeKnown, procs, pprio, pworld, bad>>
+    /\ PK /\ UNCHANGED <<nextAuto, enabled, selfReg, procs, pprio, pworld, bad>>
 
 \* --- clear() -------------------------------------------------------------------------------------------
 RECURSIVE RemoveAllProcs(_, _)
@@ -300,7 +304,6 @@ Clear ==
 
 \* --- dispatch_enabled = b ------------------------------------------------------------------------------
 \* queue entries: lifecycle relays <<cb, who, ent, first>>, probes <<"probe", "-", tok, TRUE>>
-ProbeTargets(rg) == {x \in rg : "probe" \in (IF x \in Comps THEN Decl[x] ELSE PDecl[x])}
 RECURSIVE Release(_, _, _)
 Release(q, rg, lg) ==      \* returns <<log, raisedAt>> ; listeners of a probe are those registered at release time
     IF q = <<>> THEN <<lg, 0>>
@@ -322,7 +325,7 @@ SetEnabled(b) ==
 \* --- world.dispatch("probe", tok): an ordinary event of the world --------------------------------------
 Probe(tok) ==
     /\ "probe" \in Acts /\ QRoom(1)
-    /\ LET known == probeKnown \/ ProbeTargets(reg) # {} IN
+    /\ LET known == probeKnown IN
        /\ probeKnown' = known
        /\ IF ~known THEN log' = <<>> /\ queue' = queue
           ELSE IF enabled THEN log' = <<<<"probe*", "-", tok>>>> /\ queue' = queue
@@ -336,7 +339,7 @@ Next == \/ (\E id \in Ids \cup {NoEnt}, cs \in CompSeqs : CreateEntity(id, cs))
         \/ (\E e \in Ids, c \in Comps : AddComponent(e, c))
         \/ (\E e \in Ids, T \in Types : RemoveComponent(e, T))
         \/ (\E e \in Ids : DeleteDeferred(e) \/ DeleteImmediate(e))
-        \/ (\E p \in Procs, pr \in Prios \cup {"none"} : AddProcessor(p, pr))
+        \/ (\E p \in Procs, pr \in Prios \cup {NoPrio} : AddProcessor(p, pr))
         \/ (\E T \in PTypes : RemoveProcessor(T))
         \/ (\E dt \in Dts : Process(dt))
         \/ (\E dt \in Dts, p \in Procs : ProcessProcFault(dt, p))
@@ -398,10 +401,10 @@ OnePerType == \A i, j \in 1..Len(procs) : i # j => PTypeOf[procs[i]] # PTypeOf[p
 AddedKnowsWorld == \A i \in 1..Len(procs) : pworld[procs[i]]
 \* insertion is stable: a newly added processor goes after every present processor of the same priority
 InsertAfterEquals ==
-    [][\A p \in Procs, pr \in Prios \cup {"none"} : AddProcessor(p, pr) =>
+    [][\A p \in Procs, pr \in Prios \cup {NoPrio} : AddProcessor(p, pr) =>
           \A i, j \in 1..Len(procs') : (procs'[i] = p /\ pprio'[procs'[j]] = pprio'[p] /\ j # i) => j < i]_vars
 KeepsRelativeOrder ==
-    [][\A p \in Procs, pr \in Prios \cup {"none"} : AddProcessor(p, pr) =>
+    [][\A p \in Procs, pr \in Prios \cup {NoPrio} : AddProcessor(p, pr) =>
           \A a, b \in 1..Len(procs) : (a < b /\ procs[a] # p /\ procs[b] # p
                                        /\ PTypeOf[procs[a]] # PTypeOf[p] /\ PTypeOf[procs[b]] # PTypeOf[p]) =>
               \E x, y \in 1..Len(procs') : x < y /\ procs'[x] = procs[a] /\ procs'[y] = procs[b]]_vars
